@@ -363,3 +363,89 @@ Qed.
 Lemma ObjectRef_qualified_refuted :
   exists specs o, In o specs /\ ObjectRef_qualified specs o = false /\ qualifier_spec specs o = Some (q_schema o).
 Proof. exists [QO 1 10; QO 2 10; QO 3 1], (QO 3 1). vm_compute. intuition. Qed.
+
+(** ** QualifyReferences *)
+Lemma opt_nat_eqb_eq a b : opt_nat_eqb a b = true <-> a = b.
+Proof.
+  destruct a, b; simpl; try (split; congruence).
+  rewrite Nat.eqb_eq. split; congruence.
+Qed.
+
+Lemma byRef_has_iff res q name :
+  byRef_has res q name = true <-> exists o, In (o, q) res /\ q_label o = name.
+Proof.
+  unfold byRef_has. rewrite existsb_exists. split.
+  - intros [[o q'] [Hi H]]. simpl in H. apply andb_true_iff in H. destruct H as [H1 H2].
+    apply Nat.eqb_eq in H1. apply opt_nat_eqb_eq in H2. subst. eauto.
+  - intros [o [Hi <-]]. exists (o, q). split; auto. simpl. rewrite Nat.eqb_refl. apply opt_nat_eqb_eq. reflexivity.
+Qed.
+
+(* what the reference to a table of the realm is: qualified exactly when the table's block is *)
+Theorem QualifyReferences_ref_spec specs target :
+  In target specs ->
+  QualifyReferences_ref (map (fun o => (o, qualifier_spec specs o)) specs) target =
+  match qualifier_spec specs target with
+  | Some q => RefQualified q (q_label target)
+  | None => RefPlain (q_label target)
+  end.
+Proof.
+  intros Hin. unfold QualifyReferences_ref.
+  set (res := map (fun o => (o, qualifier_spec specs o)) specs).
+  assert (Hres : forall o q, In (o, q) res <-> In o specs /\ q = qualifier_spec specs o).
+  { intros o q. unfold res. rewrite in_map_iff. split.
+    - intros [x [E Hx]]. inversion E; subst. auto.
+    - intros [Hx ->]. exists o; auto. }
+  assert (Hq : forall o, qualifier_spec specs o = Some (q_schema o) \/ qualifier_spec specs o = None).
+  { intros o. unfold qualifier_spec. destruct (conflictb specs o || schema_used specs (q_label o)); auto. }
+  destruct (qualifier_spec specs target) as [q|] eqn:E.
+  - destruct (Hq target) as [H|H]; [|congruence]. rewrite E in H. inversion H; subst q.
+    replace (byRef_has res (Some (q_schema target)) (q_label target)) with true; [reflexivity|].
+    symmetry. apply byRef_has_iff. exists target. split; auto. apply Hres. split; auto.
+  - replace (byRef_has res (Some (q_schema target)) (q_label target)) with false.
+    + replace (byRef_has res None (q_label target)) with true; [reflexivity|].
+      symmetry. apply byRef_has_iff. exists target. split; auto. apply Hres. split; auto.
+    + symmetry. apply not_true_is_false. intros H. apply byRef_has_iff in H.
+      destruct H as [o [Hi Hl]]. apply Hres in Hi. destruct Hi as [Ho Hs].
+      destruct (Hq o) as [H1|H1]; rewrite H1 in Hs; [|discriminate].
+      inversion Hs as [Hs']. assert (o = target).
+      { destruct o, target; simpl in *; subst; reflexivity. }
+      subst o. congruence.
+Qed.
+
+(* the keys of byRef are pairwise distinct: "duplicate references" cannot be returned for a realm
+   whose (schema, label) pairs are distinct *)
+Theorem QualifyReferences_no_duplicate specs :
+  NoDup specs -> NoDup (map byRef_key (map (fun o => (o, qualifier_spec specs o)) specs)).
+Proof.
+  intros ND. rewrite map_map. unfold byRef_key; simpl.
+  set (f := fun o => (qualifier_spec specs o, q_label o)).
+  assert (Inj : forall a b, In a specs -> In b specs -> f a = f b -> a = b).
+  { intros a b Ha Hb E. unfold f in E. inversion E as [[Eq El]].
+    destruct (Nat.eq_dec (q_schema a) (q_schema b)) as [Es|Ns].
+    - destruct a, b; simpl in *; subst; reflexivity.
+    - exfalso. assert (Ca : conflictb specs a = true).
+      { unfold conflictb. apply existsb_exists. exists b. split; auto.
+        rewrite El, Nat.eqb_refl. simpl. apply negb_true_iff, Nat.eqb_neq. auto. }
+      assert (Cb : conflictb specs b = true).
+      { unfold conflictb. apply existsb_exists. exists a. split; auto.
+        rewrite El, Nat.eqb_refl. simpl. apply negb_true_iff, Nat.eqb_neq. auto. }
+      unfold qualifier_spec in Eq. rewrite Ca, Cb in Eq. simpl in Eq. inversion Eq. auto. }
+  clearbody f. revert Inj.
+  induction ND as [|x l Hx ND IH]; intros Inj; simpl; constructor.
+  - intros H. apply in_map_iff in H. destruct H as [y [E Hy]].
+    assert (y = x) by (apply Inj; simpl; auto). subst. contradiction.
+  - apply IH. intros a b Ha Hb. apply Inj; simpl; auto.
+Qed.
+
+Lemma byRef_has_perm res res' q name : Permutation res res' -> byRef_has res q name = byRef_has res' q name.
+Proof. intros P. apply existsb_perm; exact P. Qed.
+
+Theorem QualifyReferences_order_independent specs specs' bl bl' target :
+  Permutation specs specs' ->
+  map_order bl (byLabel specs) -> map_order bl' (byLabel specs') ->
+  QualifyReferences_ref (QualifyObjects_over bl specs) target =
+  QualifyReferences_ref (QualifyObjects_over bl' specs') target.
+Proof.
+  intros P M M'. destruct (QualifyObjects_order_independent _ _ _ _ P M M') as [_ PQ].
+  unfold QualifyReferences_ref. rewrite !(byRef_has_perm _ _ _ _ PQ). reflexivity.
+Qed.
